@@ -20,26 +20,35 @@ ALL = ['list', 'dict', 'tuple', 'set', 'P', 'S', 'SD', 'GS', 'GT', 'GV', 'NA', '
        'MS', 'OD']
 ALLLEAVES = ['i', 'i0', 's', 's0', 'z', 'c', 'n', 'f', 'm', 'e', 'b']
 DEVIATIONS = ['deepreg', 'slotsnone', 'falsystate', 'nonestate', 'emptytuple']
+A7 = ['list', 'P', 'GS', 'R2', 'tuple', 'GV', 'ML']
+B7 = ['dict', 'S', 'SD', 'GT', 'NA', 'RL', 'OD']
+C7 = ['set', 'NT', 'R3', 'RD', 'CR', 'MD', 'MS']
 CONFIGS = {
-    # quick
-    'pairs':   dict(MaxObjs=2, Shapes=ALL, Leaves=['i'], KidsRoot=2, KidsRest=2),
-    'leaves':  dict(MaxObjs=1, Shapes=ALL, Leaves=ALLLEAVES, KidsRoot=2, KidsRest=0),
+    # quick: every ordered pair of shapes (root with <= 2 kids: sharing; second object with <= 1 kid: back edge),
+    # every leaf kind under every shape, chains of three objects with back edges over two 7-shape families
+    'pairs21': dict(MaxObjs=2, Shapes=ALL, Leaves=['i'], KidsRoot=2, KidsRest=1),
+    'leaves':  dict(MaxObjs=1, Shapes=ALL, Leaves=['i', 'i0', 's0', 'z', 'c', 'n', 'f', 'm', 'e'], KidsRoot=2, KidsRest=0),
+    'chainA':  dict(MaxObjs=3, Shapes=A7, Leaves=['i'], KidsRoot=1, KidsRest=1),
+    'chainB':  dict(MaxObjs=3, Shapes=B7, Leaves=['i'], KidsRoot=1, KidsRest=1),
+    # thorough
+    'pairs22': dict(MaxObjs=2, Shapes=ALL, Leaves=['i'], KidsRoot=2, KidsRest=2),
+    'pairs_l': dict(MaxObjs=2, Shapes=ALL, Leaves=['i0', 'z'], KidsRoot=2, KidsRest=1),
+    'leaves2': dict(MaxObjs=1, Shapes=ALL, Leaves=ALLLEAVES, KidsRoot=2, KidsRest=0),
+    'chainC':  dict(MaxObjs=3, Shapes=C7, Leaves=['i'], KidsRoot=1, KidsRest=1),
     'tri_a':   dict(MaxObjs=3, Shapes=['list', 'P', 'GS', 'R2', 'tuple'], Leaves=['i'], KidsRoot=2, KidsRest=1),
     'tri_b':   dict(MaxObjs=3, Shapes=['dict', 'GV', 'ML', 'S', 'NA'], Leaves=['i'], KidsRoot=2, KidsRest=1),
     'tri_c':   dict(MaxObjs=3, Shapes=['list', 'GT', 'SD', 'RL', 'OD'], Leaves=['i'], KidsRoot=2, KidsRest=1),
-    # thorough
-    'pairs_l': dict(MaxObjs=2, Shapes=ALL, Leaves=['i', 'i0', 'z'], KidsRoot=2, KidsRest=1),
-    'tri_a2':  dict(MaxObjs=3, Shapes=['list', 'P', 'GS', 'R2'], Leaves=['i'], KidsRoot=2, KidsRest=2),
-    'tri_b2':  dict(MaxObjs=3, Shapes=['dict', 'GV', 'ML', 'NA'], Leaves=['i'], KidsRoot=2, KidsRest=2),
-    'tri_c2':  dict(MaxObjs=3, Shapes=['list', 'GT', 'SD', 'RL'], Leaves=['i'], KidsRoot=2, KidsRest=2),
-    'tri_d2':  dict(MaxObjs=3, Shapes=['tuple', 'NT', 'MD', 'RD', 'P'], Leaves=['i'], KidsRoot=2, KidsRest=2),
-    'tri_e2':  dict(MaxObjs=3, Shapes=['list', 'S', 'R3', 'CR', 'OD'], Leaves=['i'], KidsRoot=2, KidsRest=2),
-    'quad_a':  dict(MaxObjs=4, Shapes=['list', 'P', 'GS', 'R2'], Leaves=['i'], KidsRoot=2, KidsRest=1),
-    'quad_b':  dict(MaxObjs=4, Shapes=['dict', 'GV', 'tuple', 'ML'], Leaves=['i'], KidsRoot=2, KidsRest=1),
+    'tri_d':   dict(MaxObjs=3, Shapes=['tuple', 'NT', 'MD', 'RD', 'P'], Leaves=['i'], KidsRoot=2, KidsRest=1),
+    'tri_e':   dict(MaxObjs=3, Shapes=['list', 'MS', 'R3', 'CR', 'GS'], Leaves=['i'], KidsRoot=2, KidsRest=1),
+    'tri_a2':  dict(MaxObjs=3, Shapes=['list', 'P', 'GS'], Leaves=['i'], KidsRoot=2, KidsRest=2),
+    'tri_b2':  dict(MaxObjs=3, Shapes=['dict', 'GV', 'R2'], Leaves=['i'], KidsRoot=2, KidsRest=2),
+    'quad_a':  dict(MaxObjs=4, Shapes=['list', 'P', 'GS', 'R2', 'tuple'], Leaves=['i'], KidsRoot=1, KidsRest=1),
+    'quad_b':  dict(MaxObjs=4, Shapes=['dict', 'GV', 'ML', 'SD', 'NA'], Leaves=['i'], KidsRoot=1, KidsRest=1),
 }
-TIERS = {'quick': ['pairs', 'leaves', 'tri_a', 'tri_b', 'tri_c'],
-         'thorough': ['pairs_l', 'leaves', 'tri_a2', 'tri_b2', 'tri_c2', 'tri_d2', 'tri_e2', 'quad_a', 'quad_b']}
-RANDOM = {'quick': 1500, 'thorough': 12000}
+TIERS = {'quick': ['pairs21', 'leaves', 'chainA', 'chainB'],
+         'thorough': ['pairs22', 'pairs_l', 'leaves2', 'chainA', 'chainB', 'chainC', 'tri_a', 'tri_b', 'tri_c', 'tri_d', 'tri_e',
+                      'tri_a2', 'tri_b2', 'quad_a', 'quad_b']}
+RANDOM = {'quick': 600, 'thorough': 12000}
 WORKERS = int(os.environ.get('VERIF_TLC_WORKERS', '16'))
 
 
